@@ -1894,6 +1894,206 @@ def live_compare(ctx, scn, kind, spec, ref, pin, order_seed=None, reframe=None):
     return got
 
 
+def corr_alertpeek(ctx, P):
+    """error path of _sendMsgThroughSocket: the first handshake send fails (EPIPE), the library
+    reads on looking for the peer's alert.  Model `alertPeek` vs a real TLSConnection over ScriptSock."""
+    from tlslite.tlsconnection import TLSConnection
+    from tlslite import errors
+    from harness import lab
+    rng = ctx.rng
+    st = lab.settings(minv=(3, 1), maxv=(3, 3))
+
+    def alert(level, desc, ver=(3, 3)):
+        return bytes([21, ver[0], ver[1], 0, 2, level, desc])
+    bases = [alert(2, 40), alert(2, 70, (3, 1)), alert(1, 0) + alert(2, 20), bytes([21, 3, 3, 0, 1, 2, 21, 3, 3, 0, 1, 40]),
+             bytes([22, 3, 3, 0, 4, 14, 0, 0, 0]) + alert(2, 40), bytes([22, 3, 3, 0, 2, 14, 0]) + alert(2, 40),
+             bytes([23, 3, 3, 0, 3, 1, 2, 3]), bytes([23, 3, 3, 0, 0]) + alert(2, 40), bytes([21, 3, 3, 0, 0]) + alert(2, 40),
+             bytes([20, 3, 3, 0, 1, 1]) + alert(2, 40), bytes([24, 3, 3, 0, 2, 1, 2]), bytes([0x80, 3, 1, 2, 3]),
+             bytes([0x00, 0x08, 0x09]) + b"\x00" * 8, bytes([21, 3, 3, 0x48, 0x01]) + b"\x00" * 10, b""]
+    for it in range(ctx.pick(700, 5000)):
+        data = rng.choice(bases)
+        if rng.random() < 0.2:
+            data = data[:rng.randrange(0, len(data) + 1)]
+        rs = rand_rsched(rng, len(data), faults=True)
+        if rng.random() < 0.3:
+            rs = rs + ["eof"]
+        raw = ScriptSock(data, rs, ["err", 1 << 20, 1 << 20, 1 << 20])
+        conn = TLSConnection(raw)
+        ys = []
+        try:
+            res = "ok:finished?"
+            for r in conn.handshakeClientCert(settings=st, async_=True):
+                if raw.exhausted:
+                    res = "pending"
+                    break
+                ys.append(r)
+        except errors.TLSRemoteAlert as e:
+            res = "ok:remoteAlert:%d:%d" % (e.level, e.description)
+        except errors.TLSLocalAlert as e:
+            res = "exc:" + {10: "unexpectedMessage", 22: "recordOverflow", 47: "illegalParameter"}.get(e.description, "localAlert%d" % e.description)
+        except errors.TLSAbruptCloseError:
+            res = "exc:abruptClose"
+        except socket.error as e:
+            res = "ok:originalError" if e.args[0] == errno.EPIPE else "exc:socketError"
+        except Exception as e:  # noqa: BLE001
+            res = "exc:" + exc_name(e)
+        impl = "y=%s r=%s up=%s" % (ystr(ys), res, hx(upstream(raw, conn.sock)))
+        case = {"stage": "a:alertpeek", "inflight": data.hex(), "rsched": sched_str(rs, "c")}
+        P.add("sock %s %s - 1" % (hx(data), sched_str(rs, "c")))
+        P.add("alertpeek 0 16384", "alertpeek", case, impl)
+        ctx.count("a:alertpeek:" + res.split(":")[0] + ":" + (res.split(":")[1] if ":" in res else ""))
+        ctx.case(key=("alertpeek", data, tuple(rs)), sample=None)
+    P.flush()
+
+
+# ---- send failure during the handshake with the peer's alert in flight ------------------------------
+def senderr_outcome(role, inflight, eof, sched, driver, pin, client_hello=None, ver=(3, 3)):
+    """One endpoint starts a handshake; its first send() fails with EPIPE while `inflight` (what the
+    peer sent before closing) is waiting / still arriving under the recv schedule `sched`
+    (list of ints / 'wb'; exhausted = deliver everything).  Returns the outcome class."""
+    from harness import lab
+    from tlslite.integration.asyncstatemachine import AsyncStateMachine
+    pin.reset()
+    L = lab.Lab()
+    e = L.end(role)
+    rx = "s2c" if role == "client" else "c2s"
+    L.link.inject(rx, (client_hello or b"") + inflight)
+    if eof:
+        L.link.closed[rx] = True
+    e.sock.faults[("send", 0)] = "pipe"
+    e.sock.recv_schedule = iter(list(sched)) if sched is not None else None
+    st = lab.settings(minv=(3, 1), maxv=ver)
+    if role == "client":
+        def mk(conn, blocking=False):
+            return conn.handshakeClientCert(settings=st, async_=not blocking)
+    else:
+        chain, key = lab.creds("rsa")
+
+        def mk(conn, blocking=False):
+            if blocking:
+                return conn.handshakeServer(certChain=chain, privateKey=key, settings=st)
+            return conn.handshakeServerAsync(certChain=chain, privateKey=key, settings=st)
+    exc = None
+    state = "done"
+    pin.cur = role
+    try:
+        if driver == "gen":
+            n = 0
+            for _ in mk(e.conn):
+                n += 1
+                if n > 20000:
+                    state = "stall"
+                    break
+        elif driver == "blocking":
+            mk(e.conn, blocking=True)
+        else:
+            m = AsyncStateMachine()
+            m.tlsConnection = e.conn
+            done = []
+            m.outConnectEvent = lambda: done.append(1)
+            m.setHandshakeOp(mk(e.conn))
+            n = 0
+            while not done:
+                n += 1
+                if n > 20000:
+                    state = "stall"
+                    break
+                if m.wantsReadEvent():
+                    m.inReadEvent()
+                elif m.wantsWriteEvent():
+                    m.inWriteEvent()
+                else:
+                    break
+    except BaseException as x:  # noqa: BLE001 - classified
+        if isinstance(x, (KeyboardInterrupt, SystemExit, Hung)):
+            raise
+        exc = x
+        state = "error"
+    finally:
+        pin.cur = None
+    cls = lab.exc_class(exc)
+    if cls.startswith("remote_alert"):
+        cls += "/level%d" % exc.level
+    return [state, cls, bool(e.conn.closed)]
+
+
+def senderr_runs(ctx):
+    """family: a handshake send hits EPIPE while the peer's (fatal) alert is in flight; the exception
+    raised must not depend on chunking / would-blocks of the alert's arrival, nor on the driver"""
+    rng = ctx.rng
+    with Pin(rng.randrange(1 << 30)) as pin:
+        # a real ClientHello for the server-side variant
+        from harness import lab
+        L0 = lab.Lab()
+        L0.start_client(lambda c: c.handshakeClientCert(settings=lab.settings(minv=(3, 1), maxv=(3, 3)), async_=True))
+        pin.cur = "client"
+        L0.run(only=("client",))
+        pin.cur = None
+        ch = b"".join(L0.link.wire_log["c2s"])
+
+        def alert(level, desc, ver=(3, 3)):
+            return bytes([21, ver[0], ver[1], 0, 2, level, desc])
+        inflights = [
+            ("alert-40", alert(2, 40), False), ("alert-70", alert(2, 70, (3, 1)), False), ("alert-80", alert(2, 80), True),
+            ("alert-47+more", alert(2, 47) + alert(1, 0), True), ("close-notify", alert(1, 0), True),
+            ("alert-2-records", bytes([21, 3, 3, 0, 1, 2]) + bytes([21, 3, 3, 0, 1, 40]), False),
+            ("handshake-record", bytes([22, 3, 3, 0, 4, 14, 0, 0, 0]) + alert(2, 40), True),
+            ("appdata-record", bytes([23, 3, 3, 0, 3, 1, 2, 3]), True),
+            ("empty-alert-record", bytes([21, 3, 3, 0, 0]) + alert(2, 40), True),
+            ("nothing+eof", b"", True),
+        ]
+        for k in range(1, 7):
+            inflights.append(("alert-cut-%d+eof" % k, alert(2, 40)[:k], True))
+        n_rand = ctx.pick(6, 40)
+        for role in ("client", "server"):
+            pre = ch if role == "server" else None
+            for name, data, eof in inflights:
+                if role == "server" and name not in ("alert-40", "alert-2-records", "nothing+eof", "alert-cut-3+eof", "handshake-record"):
+                    continue
+                ref = senderr_outcome(role, data, eof, None, "gen", pin, client_hello=pre)
+                ctx.count("senderr:reference:%s:%s" % (role, ref[1]))
+                total = len(data) + (len(pre) if pre else 0)
+                base = len(pre) if pre else 0
+                scheds = [("all", [total])]
+                scheds.append(("one", [1] * total))
+                scheds.append(("wb-first", ["wb", total]))
+                scheds.append(("wb-every-byte", ["wb", 1] * total))
+                for p in range(0, len(data) + 1):
+                    for k in (1, 2):
+                        scheds.append(("split%d-wb%d" % (p, k), ([base + p] if base + p else []) + ["wb"] * k + [total]))
+                    if 0 < p < len(data):
+                        scheds.append(("split%d" % p, [base + p, total]))
+                for i in range(n_rand):
+                    ev, left = [], total
+                    while left > 0:
+                        ev.extend(["wb"] * rng.choice([0, 0, 1, 2, 3]))
+                        c = rng.choice([1, 1, 2, 3, 5, 7, 40, 1000])
+                        ev.append(c)
+                        left -= c
+                    scheds.append(("rand%d" % i, ev))
+                for sname, sched in scheds:
+                    for driver in ("gen", "asm", "blocking"):
+                        if driver == "blocking" and not eof and ref[0] != "error":
+                            continue          # a blocking call would spin on a socket that never delivers
+                        rep = {"stage": "senderr", "role": role, "inflight": data.hex(), "inflight_name": name, "eof": eof,
+                               "schedule": sched, "driver": driver, "pin_seed": pin.seed, "with_client_hello": bool(pre)}
+                        try:
+                            with Watchdog(60):
+                                got = senderr_outcome(role, data, eof, sched, driver, pin, client_hello=pre)
+                        except Hung:
+                            pin.cur = None
+                            got = ["hung", "none", None]
+                        ctx.case(key=("senderr", role, name, sname, tuple(sched), driver), nontrivial=True,
+                                 sample=dict(rep, outcome=got) if (sname == "split5-wb1" and name == "alert-40" and driver == "gen") else None)
+                        ctx.count("senderr:%s" % driver)
+                        if got != ref:
+                            ctx.violation("c14:senderr-differs:%s" % driver,
+                                          "%s handshake whose send fails (EPIPE) with %s in flight: outcome %s under recv schedule %s "
+                                          "(%s driver), %s when everything is delivered at once"
+                                          % (role, name, got, sched_str(sched, "c")[:80], driver, ref),
+                                          dict(rep, outcome=got, reference=ref))
+
+
 def live_runs(ctx):
     rng = ctx.rng
     pin_seed = rng.randrange(1 << 30)
@@ -1951,7 +2151,7 @@ def live_runs(ctx):
             round_no += 1
             if len(ctx.violations) >= 8:
                 break
-            if ctx.out_of_time(0.92) or round_no >= ctx.pick(8, 80):
+            if ctx.out_of_time(0.92) or round_no >= ctx.pick(6, 80):
                 break
     ctx.extra["live_rounds"] = round_no
     ctx.extra["live_seconds"] = round(ctx.elapsed() - t_live, 1)
@@ -1996,11 +2196,29 @@ def run(ctx):
     corr_defragmenter(ctx, P)
     corr_getnextrecord(ctx, P)
     corr_asm(ctx, P)
+    corr_alertpeek(ctx, P)
+    senderr_runs(ctx)
     live_runs(ctx)
 
 
 def replay(ctx, rep):
     inp = rep.get("input", {})
+    if inp.get("stage") == "senderr":
+        with Pin(inp["pin_seed"]) as pin:
+            ch = None
+            if inp.get("with_client_hello"):
+                from harness import lab
+                L0 = lab.Lab()
+                L0.start_client(lambda c: c.handshakeClientCert(settings=lab.settings(minv=(3, 1), maxv=(3, 3)), async_=True))
+                pin.cur = "client"
+                L0.run(only=("client",))
+                pin.cur = None
+                ch = b"".join(L0.link.wire_log["c2s"])
+            data = bytes.fromhex(inp["inflight"])
+            ref = senderr_outcome(inp["role"], data, inp["eof"], None, "gen", pin, client_hello=ch)
+            got = senderr_outcome(inp["role"], data, inp["eof"], inp["schedule"], inp["driver"], pin, client_hello=ch)
+        print("all at once:", ref, " under the schedule:", got)
+        return got != ref
     if inp.get("stage") == "live":
         scn = [x for x in scenario_list(True) if x["name"] == inp["scenario"]][0]
         with Pin(inp["pin_seed"]) as pin:
@@ -2024,6 +2242,7 @@ def replay(ctx, rep):
     corr_defragmenter(ctx, P)
     corr_getnextrecord(ctx, P)
     corr_asm(ctx, P)
+    corr_alertpeek(ctx, P)
     for d in ctx.disagreements[:5]:
         print("disagreement", d["stream"], "model:", d["model"], "impl:", d["impl"])
     return bool(ctx.violations or ctx.disagreements)
